@@ -22,6 +22,9 @@ func init() {
 			"non-trivial = distinct event with a valid argument count and at least one argument",
 		NonTrivial: func(seg []Ev) string {
 			e := seg[0]
+			if e["op"] == "rndmany" {
+				return fmt.Sprint(e["name"], e["rseed"], e["count"])
+			}
 			if len(e["args"].([]any)) == 0 {
 				return ""
 			}
@@ -57,6 +60,14 @@ func argFromSpec(s string) *variants.Variant {
 	case "t":
 		x, _ := strconv.ParseInt(v, 10, 64)
 		return variants.VariantFromDateTime(time.Unix(x, 0))
+	case "tz", "tl": // a date-time in a zone of its own (tz:<unix>:<offset seconds>) / in the host's local zone (tl:<unix>)
+		parts := strings.Split(v, ":")
+		x, _ := strconv.ParseInt(parts[0], 10, 64)
+		if k == "tl" {
+			return variants.VariantFromDateTime(time.Unix(x, 0).In(time.Local))
+		}
+		off, _ := strconv.Atoi(parts[1])
+		return variants.VariantFromDateTime(time.Unix(x, 0).In(time.FixedZone("zone", off)))
 	case "ts":
 		x, _ := strconv.ParseInt(v, 10, 64)
 		return variants.VariantFromTimeSpan(time.Duration(x) * time.Millisecond)
@@ -68,9 +79,45 @@ func argFromSpec(s string) *variants.Variant {
 	return variants.EmptyVariant()
 }
 
+var c08hostZone = time.Local
+
 func execC08(seg []Ev) []Ev {
 	out := make([]Ev, 0, len(seg))
+	defer func() { time.Local = c08hostZone }()
 	for _, in := range seg {
+		if toStr(in["op"]) == "rndmany" {
+			// many draws from one generator state: the smallest and the largest floor(v * 2^24) seen
+			name, count, seed := toStr(in["name"]), toInt(in["count"]), int64(toInt(in["rseed"]))
+			e := Ev{"op": "rndmany", "mgr": toStr(in["mgr"]), "name": name, "count": count, "rseed": int(seed), "min24": 0, "max24": 0, "bad": 0, "outcome": "ok"}
+			fn := functions.NewDefaultFunctionCollection().FindByName(name)
+			m := c06mgr(toStr(in["mgr"]))
+			if seed != 0 {
+				rand.Seed(seed)
+			}
+			mn, mx, bad := math.Inf(1), math.Inf(-1), 0
+			oc, _ := guardedLong(func() {
+				for i := 0; i < count; i++ {
+					r, err := fn.Calculate(nil, m)
+					if err != nil || r == nil || r.Type() != variants.Float {
+						bad++
+						continue
+					}
+					f := float64(r.AsFloat())
+					if f < mn {
+						mn = f
+					}
+					if f > mx {
+						mx = f
+					}
+				}
+			})
+			e["outcome"], e["bad"] = oc, bad
+			if bad < count && oc == "ok" {
+				e["min24"], e["max24"] = int(math.Floor(mn*(1<<24))), int(math.Floor(mx*(1<<24)))
+			}
+			out = append(out, e)
+			continue
+		}
 		mgr, name := toStr(in["mgr"]), toStr(in["name"])
 		var specs []string
 		for _, x := range toList(in["argspec"]) {
@@ -78,6 +125,11 @@ func execC08(seg []Ev) []Ev {
 		}
 		if specs == nil {
 			specs = []string{}
+		}
+		// "tl:" arguments: the call is made on a host whose local zone is not UTC
+		time.Local = c08hostZone
+		if len(specs) > 0 && strings.HasPrefix(specs[0], "tl:") {
+			time.Local = time.FixedZone("host", 19800)
 		}
 		args := make([]*variants.Variant, len(specs))
 		aj := make([]any, len(specs))
@@ -179,6 +231,16 @@ var c08generic = []string{"i:0", "i:3", "i:-8", "l:5", "l:-2", "f:1.5", "f:-2.25
 
 func genC08(g *Gen) {
 	r := g.Rand()
+	// the random functions stay inside [0,1) over many draws and over many generator states
+	for _, name := range []string{"Rnd", "RANDOM"} {
+		for s := 1; s <= g.Pick(40, 400); s++ {
+			g.Run("many draws x generator states", []Ev{{"op": "rndmany", "mgr": "unsafe", "name": name, "count": 30000, "rseed": s*811 + int(g.Seed)}})
+		}
+		for _, s := range []int{1622, 1, 42} {
+			g.Run("many draws x generator states", []Ev{{"op": "rndmany", "mgr": "safe", "name": name, "count": 30000, "rseed": s}})
+		}
+		g.Run("many draws x generator states", []Ev{{"op": "rndmany", "mgr": "unsafe", "name": name, "count": g.Pick(20_000_000, 400_000_000), "rseed": int(g.Seed) + 7}})
+	}
 	coll := functions.NewDefaultFunctionCollection()
 	spell := func(n string, rr *rand.Rand) []string {
 		mixed := []rune(n)
@@ -202,7 +264,9 @@ func genC08(g *Gen) {
 	targeted := map[string][][]string{
 		"timespan":  {{"i:5"}, {"l:1500"}, {"i:1", "i:2", "i:3"}, {"i:1", "i:2", "i:3", "i:4"}, {"i:1", "i:2", "i:3", "i:4", "i:5"}, {"i:0", "i:0", "i:0", "i:0", "i:7"}, {"l:2", "i:0", "i:30"}, {"i:-1", "i:0", "i:0"}},
 		"date":      {{"l:86400"}, {"i:0"}, {"i:2020"}, {"i:2020", "i:2"}, {"i:2020", "i:2", "i:28"}, {"i:1999", "i:12", "i:5", "i:23"}, {"i:2024", "i:7", "i:4", "i:9", "i:30"}, {"i:2001", "i:1", "i:1", "i:0", "i:0", "i:59"}, {"i:2020", "i:2", "i:3", "i:4", "i:5", "i:6", "i:7"}},
-		"dayofweek": {{"t:0"}, {"t:86400"}, {"t:1700000000"}, {"t:951782400"}, {"t:1709164800"}, {"t:-86400"}, {"t:4102444800"}, {"l:86400"}, {"s:x"}},
+		"dayofweek": {{"t:0"}, {"t:86400"}, {"t:1700000000"}, {"t:951782400"}, {"t:1709164800"}, {"t:-86400"}, {"t:4102444800"}, {"l:86400"}, {"s:x"},
+			{"tz:1700000000:10800"}, {"tz:1700000000:-28800"}, {"tz:1700006400:-3600"}, {"tz:1700006400:3600"}, {"tz:951782400:-60"}, {"tz:951782399:60"}, {"tz:1709164800:50400"}, {"tz:1709164800:-43200"},
+			{"tz:86399:1"}, {"tz:86400:-1"}, {"tz:4102444800:19800"}, {"tl:1700000000"}, {"tl:1700071200"}, {"tl:951762600"}, {"tl:86400"}},
 		"if":        {{"b:true", "i:1", "i:2"}, {"b:false", "i:1", "i:2"}, {"i:0", "s:a", "s:b"}, {"i:5", "s:a", "s:b"}, {"d:0", "n", "i:1"}, {"d:0.5", "n", "i:1"}},
 		"choose":    {{"i:1", "s:a", "s:b"}, {"i:2", "s:a", "s:b"}, {"i:3", "s:a", "s:b", "s:c"}, {"i:3", "s:a", "s:b"}, {"i:-1", "s:a", "s:b"}, {"i:0", "s:a", "s:b"}, {"l:2", "i:7", "i:8", "i:9"}, {"i:7", "s:a", "s:b"}},
 		"contains":  {{"s:hello", "s:ell"}, {"s:hello", "s:xyz"}, {"s:hello", "s:"}, {"s:héllo", "s:é"}, {"s:abc", "s:abcd"}, {"s:", "s:a"}, {"i:123", "i:2"}, {"s:a1", "i:1"}},
@@ -247,6 +311,38 @@ func genC08(g *Gen) {
 				}
 				if si > 1 {
 					continue
+				}
+				// long argument lists (every variadic function; the others must report the wrong count)
+				for _, n := range []int{9, 16, 31, 32, 33, 34, 40, 63, 64, 65, 100, 128, 129, 257} {
+					if n > g.Pick(130, 300) || (si == 1 && n%2 == 0) {
+						continue
+					}
+					specs := make([]string, n)
+					for i := range specs {
+						specs[i] = fmt.Sprintf("i:%d", (i*37+11)%101-50)
+					}
+					if canon == "choose" {
+						specs[0] = fmt.Sprintf("i:%d", n-1)
+					}
+					emit("long argument lists", mgr, sp, specs)
+					ds := make([]string, n)
+					for i := range ds {
+						ds[i] = fmt.Sprintf("d:%v", float64((i*53+7)%201-100)/8)
+					}
+					ds[n-1] = "d:-99.5" // the extreme value comes last
+					emit("long argument lists", mgr, sp, ds)
+					ds2 := append([]string{}, ds...)
+					ds2[n-1], ds2[n-2] = "d:1", "d:99.5"
+					emit("long argument lists", mgr, sp, ds2)
+					if canon == "choose" {
+						for _, pick := range []int{1, 31, 32, 33, n - 2, n - 1} {
+							if pick < n {
+								cs := append([]string{}, specs...)
+								cs[0] = fmt.Sprintf("i:%d", pick)
+								emit("long argument lists", mgr, sp, cs)
+							}
+						}
+					}
 				}
 				for _, t := range targeted[canon] {
 					emit("targeted arguments", mgr, sp, t)
